@@ -162,18 +162,36 @@ KILL_EXEMPT = {
 }
 
 
-def lhs_kill_rule(ctx, rid, classes=None, out_of_fragment=None):
+def lhs_kill_rule(ctx, rid, classes=None, out_of_fragment=None, backward=False, only=None):
     """on every non-bottom path to a normal return the written parameter of a
     transfer function is redefined / forgotten"""
     out_of_fragment = out_of_fragment or {}
     dom = domain_classes(ctx.db)
     n_cls = set()
+    # C11 quantifies over domains that implement backward operations: a class whose backward_assign has no effect at all
+    # (empty, statistics or a "not implemented" warning only) declares that it does not
+    no_backward = {}
+    if backward:
+        for f in sorted(set(c["file"] for c in dom.values())):
+            for fn in ctx.db.fns(f, name="backward_assign"):
+                if fn.get("cls") not in dom:
+                    continue
+                eff = [n for n, ps in nodes_not_in_log(fn["body"], lambda x: x.get("k") in ("call", "asg"))
+                       if not (n.get("k") == "call" and callee(n) and
+                               (callee(n)["name"] in ("count", "domain_name", "operator+", "ScopedCrabStats", "basic_string", "c_str", "is_bottom", "is_top") or
+                                (callee(n).get("qn") or "").startswith("std::") or
+                                (callee(n).get("cpk") or "").startswith("crab::ScopedCrabStats") or
+                                (callee(n).get("cpk") or "").startswith("crab::CrabStats")))]
+                if not eff:
+                    no_backward[fn["cpk"]] = fn
     for f in sorted(set(c["file"] for c in dom.values())):
         for fn in ctx.db.fns(f):
             if fn.get("cls") not in dom or fn.get("static"):
                 continue
             cname = fn["cpk"].split("::")[-1]
             if classes and cname not in classes:
+                continue
+            if only is not None and fn["name"] not in only:
                 continue
             wp = written_params(fn)
             if not wp or fn["name"] in ("forget", "intrinsic", "backward_intrinsic", "operator-=", "set_to_bottom"):
@@ -182,7 +200,15 @@ def lhs_kill_rule(ctx, rid, classes=None, out_of_fragment=None):
                 # weak updates join with the old value (nothing is killed); array variables live in the array
                 # domains' own maps (C14)
                 continue
-            if fn["name"].startswith("backward_"):
+            if fn["name"].startswith("backward_") != backward:
+                continue
+            if backward and fn["cpk"] in no_backward:
+                ctx.exempt(cname, "backward_assign has no effect: the domain does not implement backward operations (outside C11's "
+                           "quantifier `all domains implementing backward operations`)", rid=rid)
+                continue
+            if backward and fn["name"].startswith("backward_array_") and fn["name"] != "backward_array_load":
+                # the written operand is an array variable: numerical domains do not track it, and the array domains never
+                # transfer a constraint of the postcondition to the array's contents in their backward operations
                 continue
             key = "%s|%s|%s(%s)" % (rid, fn["cpk"], fn["name"], fn["psig"])
             if cname in out_of_fragment:
@@ -195,7 +221,7 @@ def lhs_kill_rule(ctx, rid, classes=None, out_of_fragment=None):
             if "DEFAULT_SELECT" in (fn.get("macro") or ""):
                 ctx.skipped(key, rid=rid)      # lambda-based kernel, decided by the select-kernel rule
                 continue
-            if _macro_generated(fn):
+            if _macro_generated(fn) and only is None and not (backward and "ARRAY_OPERATIONS_NOT_IMPLEMENTED" in (fn.get("macro") or "")):
                 ctx.exempt("%s::%s" % (cname, fn["name"]), "generated by %s: statement kind documented as unsupported by the domain" % fn.get("macro"), rid=rid)
                 continue
             wp_ids = [fn["params"][i]["id"] for i in wp if "variable" in (fn["params"][i].get("TC") or fn["params"][i].get("T") or "") and
